@@ -16,6 +16,8 @@ DNone   == [kind |-> "none", size |-> 0]
 \* two more encodings of an unspecified dimension that exporters write: an explicit dim_value of 0, and a dim_param that is ""
 DZero   == [kind |-> "zero", size |-> 0]
 DSymEmpty == [kind |-> "symempty", size |-> 0]
+\* a dimension may carry an ONNX denotation (DATA_BATCH, DATA_CHANNEL, ...): a comment on its meaning, not a part of the signature
+Denoted(d, den) == d @@ [den |-> den]
 IsDynamic(d) == d.kind # "fixed"
 
 ShapeOK(dims, shape) ==
